@@ -31,6 +31,7 @@ type hcfg struct {
 	IntervalS int    `json:"interval_s,omitempty"`
 	TimeoutS  int    `json:"timeout_s,omitempty"`
 	Life      life   `json:"life"`
+	Hosts     int    `json:"host_style,omitempty"` // lab.SetHostStyle: one host name per backend / one machine, one port per backend / one IP / two machines
 }
 
 type bstate struct {
@@ -433,6 +434,8 @@ func genCfg(rt *rapid.T) hcfg {
 		c.TimeoutS = rapid.IntRange(1, min(c.IntervalS-1, 5)).Draw(rt, "timeout")
 	}
 	c.Life = genLife(rt, c.N, true)
+	// what the backends' addresses look like: the state machine is per backend, wherever it runs
+	c.Hosts = rapid.IntRange(0, lab.HostStyles-1).Draw(rt, "host_style")
 	return c
 }
 
@@ -458,9 +461,12 @@ func TestC04HealthStateMachine(t *testing.T) {
 			steps = min(steps, maxLenHeavy)
 		}
 		var viol string
-		probedAll := false
+		probedAll, reprobed := false, false
 		var w *world
 		fn := lab.NewFakeNet()
+		lab.SetHostStyle(c.Hosts)
+		defer lab.SetHostStyle(0)
+		hostLabel := lab.HostStyleName()
 		fn.WithDefaultTransport(func() {
 			rapid.SyncTest(rt, func(rt *rapid.T) {
 				cfg := lab.BaseConfig(c.Strategy, lab.Ones(c.N))
@@ -673,6 +679,45 @@ func TestC04HealthStateMachine(t *testing.T) {
 					}
 					probedAll = true
 				}
+				// ... and goes on doing so whatever has happened to a backend before: once everything answers well again
+				// and every unhealthy window is over, each backend is asked again within two probe intervals (a backend
+				// whose window has expired is probed like any other - that is how it can be ejected again by a failed probe)
+				if viol == "" && c.Active && len(w.holds) == 0 {
+					for i := 0; i < c.N; i++ {
+						h := lab.BackendHost(i)
+						w.set(i, lab.Good)
+						fn.SetProbeBehaviour(h, lab.Good)
+						for fn.ParkedProbes(h) > 0 {
+							fn.ReleaseProbe(h, lab.Good)
+							synctest.Wait()
+						}
+					}
+					time.Sleep(w.W + time.Duration(c.TimeoutS+1)*time.Second)
+					w.settle()
+					t1 := time.Now()
+					time.Sleep(time.Duration(2*c.IntervalS+c.TimeoutS+1) * time.Second)
+					w.settle()
+					since := map[string]int{}
+					for _, p := range fn.ProbeLog() {
+						if p.Start.After(t1) {
+							since[p.Host]++
+						}
+					}
+					for i := 0; i < c.N && viol == ""; i++ {
+						h := lab.BackendHost(i)
+						quiet := true // nothing ejected (or may have ejected) it after the wait began
+						for _, e := range append(append([]time.Time(nil), w.b[h].ejects...), w.b[h].maybe...) {
+							quiet = quiet && e.Before(t1.Add(-w.W))
+						}
+						if quiet && since[h] == 0 && fn.ParkedProbes(h) == 0 {
+							viol = fmt.Sprintf("R3: active checks are on (interval %d s); for %v every backend has been answering well and outside any unhealthy window, yet %s (ejected %d time(s) earlier in the history) has not received a single health probe in that time (probes per backend since then: %v): a failing probe could no longer eject it",
+								c.IntervalS, time.Since(t1).Round(time.Millisecond), lab.BackendName(i), len(w.b[h].ejects), since)
+						}
+					}
+					if viol == "" {
+						reprobed = true
+					}
+				}
 			})
 		})
 		labels := []string{c.Strategy, fmt.Sprintf("threshold%d", c.Threshold)}
@@ -682,6 +727,12 @@ func TestC04HealthStateMachine(t *testing.T) {
 		}
 		if probedAll {
 			labels = append(labels, "probe-round-completed")
+		}
+		if reprobed {
+			labels = append(labels, "every-backend-probed-again-after-the-history")
+			if w.nEject > 0 {
+				labels = append(labels, "probed-again-after-an-ejection")
+			}
 		}
 		if c.WindowS == 0 {
 			labels = append(labels, "unhealthy-timeout-unset")
@@ -711,7 +762,7 @@ func TestC04HealthStateMachine(t *testing.T) {
 		if w.nLateResp > 0 {
 			labels = append(labels, "late-response-of-long-request")
 		}
-		sub.Case(map[string]any{"cfg": c, "history": w.hist}, w.nEject > 0 && w.nAfter > 0, labels...)
+		sub.Case(map[string]any{"cfg": c, "history": w.hist}, w.nEject > 0 && w.nAfter > 0, append(labels, hostLabel)...)
 		if viol != "" {
 			rt.Fatalf("cfg %+v history %v: %s", c, w.hist, viol)
 		}
